@@ -3,6 +3,7 @@ package encoding
 import (
 	"bytes"
 	"encoding/binary"
+	"encoding/hex"
 	"fmt"
 	"hash"
 	"io"
@@ -67,15 +68,22 @@ func (compValFmtInvalid) FromMatching(m any) ([]byte, error) {
 }
 
 func (compValFmtText) ToString(val []byte) string {
-	vText := ""
+	// Written into one buffer: appending to a string octet by octet copies the
+	// text so far every time, which costs memory quadratic in the length of a
+	// value that comes from the network
+	const hexDigits = "0123456789ABCDEF"
+	var vText strings.Builder
+	vText.Grow(len(val))
 	for _, b := range val {
 		if isLegalCompText(b) {
-			vText = vText + string(b)
+			vText.WriteByte(b)
 		} else {
-			vText = vText + fmt.Sprintf("%%%02X", b)
+			vText.WriteByte('%')
+			vText.WriteByte(hexDigits[b>>4])
+			vText.WriteByte(hexDigits[b&0x0f])
 		}
 	}
-	return vText
+	return vText.String()
 }
 
 func (compValFmtText) FromString(valStr string) ([]byte, error) {
@@ -165,11 +173,7 @@ func (compValFmtDec) FromMatching(m any) ([]byte, error) {
 }
 
 func (compValFmtHex) ToString(val []byte) string {
-	vText := ""
-	for _, b := range val {
-		vText = vText + fmt.Sprintf("%02x", b)
-	}
-	return vText
+	return hex.EncodeToString(val)
 }
 
 func (compValFmtHex) FromString(s string) ([]byte, error) {
